@@ -188,6 +188,19 @@ def locate(path, sig_regex, nth=0, within=None):
     return Located(path, s[a:b], s[b:e + 1], s.count("\n", 0, a) + 1)
 
 
+def grab_expr(path, regex, subs=(), group=1):
+    """extract an expression (e.g. the initialiser of a static data member) from /repo by regex; -> rewritten text"""
+    s = _stripped(path)
+    m = re.search(regex, s, flags=re.S)
+    if not m:
+        raise ExtractionError(f"{path}: expression /{regex}/ not found")
+    t = " ".join(m.group(group).split())
+    for rx, rep in subs:
+        t = re.sub(rx, rep, t)
+    check_is_c("x(void) {" + t + "}", "expr:" + regex[:30])
+    return t
+
+
 def loop_body(body, ordinal, kind=r"(?:for|while)"):
     """The `ordinal`-th (0-based, textual order, any nesting depth) loop of `body`: returns (header, body_text)."""
     it = [m for m in re.finditer(r"\b" + kind + r"\s*\(", body)]
@@ -616,7 +629,7 @@ def extract_fn(fn, mutate=False):
         elif kind == "block":
             body = enclosing_block(whole, pc["at"])
         elif kind == "slice":
-            body = "{\n" + slice_between(whole, pc["first"], pc["last"]) + "\n}"
+            body = slice_between(whole, pc["first"], pc["last"])      # wrapped in braces below (one scope with the epilogue)
         else:
             raise ExtractionError("unknown piece kind")
         # live-ins passed by pointer: every use becomes (*name)
@@ -625,8 +638,8 @@ def extract_fn(fn, mutate=False):
         if pc.get("prologue"):         # declarations / lambdas of the enclosing function the piece depends on
             pro = slice_between(whole, pc["prologue"][0], pc["prologue"][1])
             body = "{\n" + pro + "\n" + body + "\n" + pc.get("epilogue", "") + "\n}"
-        elif pc.get("epilogue"):
-            body = "{\n" + body + "\n" + pc["epilogue"] + "\n}"
+        elif pc.get("epilogue") or kind == "slice":
+            body = "{\n" + body + "\n" + pc.get("epilogue", "") + "\n}"
         sig = pc["sig"]
         log.note("piece:" + kind, 1)
     else:
